@@ -659,12 +659,57 @@ def serialize(prog):
 
 
 # ------------------------------------------------------------------------------------------------
+# canonical operator cells (operator x operand types), used as violation keys and to steer the generator
+# ------------------------------------------------------------------------------------------------
+def tname(t):
+    return TYPE_NAME[t] if not is_list(t) else TYPE_NAME[elem(t)] + "Liste"
+
+
+def cell_key(e, sc):
+    """`op=DIV lhs=Byte rhs=Kommazahl` for an operator node, None for other nodes / untypable operands"""
+    k = e[0]
+    try:
+        if k == "bin":
+            return "op=%s lhs=%s rhs=%s" % (e[1].upper(), tname(tc_type(e[2], sc)), tname(tc_type(e[3], sc)))
+        if k == "un":
+            return "op=%s operand=%s" % (e[1].upper(), tname(tc_type(e[2], sc)))
+        if k == "ter":
+            return "op=%s operands=%s" % (e[1].upper(), ",".join(tname(tc_type(x, sc)) for x in e[2:5]))
+        if k == "cast":
+            return "op=CAST from=%s to=%s" % (tname(tc_type(e[1], sc)), tname(e[2]))
+    except (KeyError, TypeError):
+        return None
+    return None
+
+
+def cells_in(e, sc, acc):
+    """all operator cells occurring in expression e"""
+    if not isinstance(e, list) or not e:
+        return acc
+    ck = cell_key(e, sc) if e[0] in ("bin", "un", "ter", "cast") else None
+    if ck:
+        acc.add(ck)
+    for x in e[1:]:
+        if isinstance(x, list):
+            if x and isinstance(x[0], str):
+                cells_in(x, sc, acc)
+            else:
+                for y in x:
+                    if isinstance(y, list):
+                        cells_in(y if not (y and y[0] in ("val",)) else y[1], sc, acc)
+    return acc
+
+
+# ------------------------------------------------------------------------------------------------
 # random typed programs
 # ------------------------------------------------------------------------------------------------
 class Gen:
     """Random well-typed, terminating programs. Every random choice goes through self.r (a random.Random)."""
 
-    def __init__(self, rng, max_depth=3, lists=True, floats=True, funcs=True):
+    def __init__(self, rng, max_depth=3, lists=True, floats=True, funcs=True, avoid=None):
+        """avoid: predicate on cell keys (see cell_key) the generator must not produce (cells with a listed finding
+        are swept by the exhaustive leg, where they are reported under their canonical key)"""
+        self.avoid = avoid
         self.r = rng
         self.n = 0
         self.max_depth = max_depth
@@ -711,7 +756,8 @@ class Gen:
         raise ValueError(t)
 
     def small_index(self):
-        return I(self.r.choice([1, 1, 2, 2, 3, 0, 4, -1, 7]))
+        r = self.r
+        return I(r.choice([1, 1, 1, 2, 2, 3]) if r.random() < 0.85 else r.choice([0, 4, -1, 7, 5]))
 
     # ---- expressions --------------------------------------------------------------------------
     def expr(self, t, sc, d=None):
@@ -730,6 +776,10 @@ class Gen:
             e = r.choice(prods)(d - 1)
             if e is not None:
                 assert tc_type(e, sc) == t, (t, e, tc_type(e, sc))
+                if self.avoid is not None:
+                    ck = cell_key(e, sc)
+                    if ck and self.avoid(ck):
+                        continue
                 return e
         return self.literal(t)
 
@@ -905,6 +955,8 @@ class Gen:
             if t in NUMERIC and r.random() < 0.2:
                 src = r.choice([q for q in NUMERIC if self.floats or q != "K"])
             e = self.expr(src, sc, 2) if src != "K" or t == "K" else self.bounded_float(sc, 1)
+            if e == ["var", v] and self.avoid is not None and self.avoid("stmt=ASSIGN source-is-target type=%s" % tname(t)):
+                e = self.literal(t)
             self.note("assign")
             return [["assign", ["lvar", v], e]]
         if x < 0.62:
